@@ -28,7 +28,8 @@ STRENGTH = "partial"   # never_early only under `Guard` (open F5b); liveness onl
 ENGINES = ["lean-model", "pyextract", "purediff", "kopfsim"]
 TIE = ("T (conditions and effects of the finalizer block of process_resource_causes + the carry filter of process_resource_event: "
        "AST → Lean, re-proved equal to the model, and `decision` = their composition) + D (real finalizers.block_deletion/"
-       "allow_deletion and Patch.as_json_patch on generated lists) + S (every cycle of whole-operator simulations: queued fns, delays "
+       "allow_deletion and Patch.as_json_patch on generated lists and bodies, marked or not; real ChangingRegistry/SpawningRegistry."
+       "requires_finalizer on registries built with kopf's decorators vs. the loop model `requiresLoop`) + S (every cycle of whole-operator simulations: queued fns, delays "
        "flag, JSON-patch outcome, carried fns, sleep-then-touch) + A (trace acceptance: one label per real step of the object's life — "
        "foreign write / mark / finalizer edit / cycle start on ITS event body / merge response / JSON-patch outcome / touch / restart — "
        "replayed through `lstep`: every label enabled, abstract state equal after each)")
@@ -37,7 +38,10 @@ LEVEL_TEXT = ("Lean theorems for ALL finalizer lists / fn sequences / decision i
               "re-scheduling of purged deletion handlers, genuine or injected 422, restarts, foreign writes between any two requests "
               "of a cycle). FULL theorems: foreign_untouched, order_preserved, block/allow specs and idempotence, allow_after_block, "
               "patch_is_fn_of_tested, foreign_untouched_lts, decision_spec, conflict_carries_nothing, cycle_decides_anew, add_on_match, "
-              "remove_on_mismatch, add_remove_on_match, released_in_one_quiet_cycle, wakeup_layer_refines. GUARDED (hence STRENGTH = "
+              "remove_on_mismatch, add_remove_on_match, released_in_one_quiet_cycle, wakeup_layer_refines; who requires the finalizer "
+              "(requires_finalizer of both registries as a loop over registrations): requires_iff (some non-excluded registration requires "
+              "and matches), requires_order_irrelevant, requires_every_registration (stacked ids), with the regression "
+              "dedup_before_match_loses_requirement_witness. GUARDED (hence STRENGTH = "
               "partial): (1) never_early is FALSE of the code in one shape (open F5b): never_early_partial / never_early_inv_partial "
               "hold under exactly the gap (when the cycle's own merge patch is sent with a removal queued, nothing requires the "
               "finalizer again; harmless writes and any number of 422 are allowed), with never_early_fails + "
@@ -54,24 +58,32 @@ THEOREMS = [("Kopf.Props.C06", "Kopf.C06." + n) for n in [
     "never_early_partial", "never_early_inv_partial", "conflict_carries_nothing", "cycle_decides_anew",
     "stale_release_via_merge_witness", "never_early_fails",
     "released_in_one_quiet_cycle", "wakeup_layer_refines", "no_lost_wakeup", "release_reachable_when_quiet", "injected_422_loses_wakeup", "carried_fn_loses_wakeup", "noop_fn_keeps_wakeup",
-    "add_on_match", "remove_on_mismatch", "add_remove_on_match"]]
+    "add_on_match", "remove_on_mismatch", "add_remove_on_match",
+    "requires_iff", "requires_order_irrelevant", "requires_every_registration", "dedup_before_match_loses_requirement_witness"]]
 TIE_THEOREMS = [("Kopf.Tie.C06", "Kopf.C06.Tie." + n) for n in [
     "mustBlock_eq", "add_eq", "remove_eq", "early_eq", "release_eq", "effects_eq", "decision_eq", "carry_eq", "changed_eq"]]
-RULE = ("D: finalizer lists over an alphabet with the own name 0-3 times, look-alikes, unicode, empty/absent containers, and fn "
-        "sequences of length 0-4 through the real functions and Patch.as_json_patch; S/A: seeded scenarios with 0-2 deletion handlers "
+RULE = ("D: finalizer lists over an alphabet with the own name 0-3 times, look-alikes, unicode, empty/absent containers, bodies with "
+        "and without a deletion mark and labels, and fn sequences of length 0-4 through the real functions and Patch.as_json_patch; "
+        "D2: registries of 0-5 registrations made with kopf's decorators (mandatory/optional deletion handlers, daemons, timers, "
+        "create/update/resume/event handlers, 1-3 functions registered several times under one id with different label/annotation "
+        "filters, another resource, explicit ids) x objects (labels, annotations, marked) x exclusion sets; S/A: seeded scenarios with 0-2 deletion handlers "
         "(optional/mandatory, label filters, one function STACKED twice under one id with different filters, outcome scripts, "
-        "retries), daemons (obey/cancel/ignore/exit, cancellation timeouts), timers, non-requiring handlers, event handlers with "
+        "retries, invocations that take time), daemons (obey/cancel/ignore/exit/linger = slow clean-up after the flag; cancellation "
+        "timeouts incl. 0, a backoff without a timeout, none at all; stacked registrations), timers (instant or slow invocations, "
+        "stacked), a configured finalizer name (kopf's default name is then a foreign finalizer), non-requiring handlers, event handlers with "
         "constant results (no-op merge content) or with state-checking patch fns that have nothing to change, label/spec edits, "
         "foreign finalizer edits, strip of the own finalizer, deletion at random moments, stops/kills/restarts, slips (a foreign "
         "write right before the operator's n-th PATCH) and injected 422; one case = one processing cycle (decision incl. the delays "
         "flag, JSON-patch outcome, carried fns, sleep-then-touch) resp. one whole trace (acceptance); distinct & non-trivial = "
         "distinct abstracted tuples in which a fn was queued, carried or a requirement was in force")
-TRUSTED = ["harness/props/sim_c06.py (stacked registrations, handler-supplied patch fns) on top of harness/sim (virtual-time loop, fake API server incl. JSON-patch `test` → 422 and deletion by last-finalizer removal, "
+TRUSTED = ["harness/props/sim_c06.py (stacked registrations, handler-supplied patch fns, foreign-finalizer ops for a configured finalizer name, "
+           "the `linger` daemon) on top of harness/sim (virtual-time loop, fake API server incl. JSON-patch `test` → 422 and deletion by last-finalizer removal, "
            "scripted handlers/daemons, attribute-level observation of kopf)",
            "pyextract atom vocabulary for the finalizer block of processing.process_resource_causes",
            "abstraction of a cycle: matching = label filters of the scenario's handlers evaluated on the body the cycle was given; "
            "`consistent` is read off whether process_changing_cause was reached"]
-ASSUMPTIONS = ["handler filters in generated scenarios are label filters only (field/when filters are C15's subject)",
+ASSUMPTIONS = ["handler filters in generated scenarios are label filters only; D2 adds annotation filters and the resource selector; "
+               "field/when filters are C15's subject: `prematch`/`match` enter the loop model as one Boolean per registration",
                "foreign actors never add or remove the framework's own finalizer except through the explicit strip op, which the "
                "oracle attributes to them (a trace is replayed up to such a write)",
                "trace acceptance covers scenarios with at most one mandatory deletion handler (stacked registrations count as one) and "
@@ -81,12 +93,25 @@ ASSUMPTIONS = ["handler filters in generated scenarios are label filters only (f
                "the task is done or its timeouts have passed is C09's subject)",
                "'finished' in the oracle = the latest handling pass before the instant left the handler finished (record kept, or "
                "final outcome in that pass); a purged-and-reinvoked handler counts as unfinished again",
-               "liveness: the oracle judges only histories whose last 25 virtual seconds are quiet and in which no 422 was injected; "
+               "liveness: the oracle judges only histories whose last 25 virtual seconds are quiet and in which no 422 was injected "
+               "(injected 5xx answers are judged: open finding F10 — the LTS has no label for a cycle that dies in its patching, the "
+               "liveness theorems are about cycles that run to their end); "
                "fairness (enabled operator steps are eventually taken, a consistent quiet cycle eventually comes) is not a theorem",
                "merge patches with resourceVersion in the body are answered 409 if stale by this property's own worker only "
                "(harness/props/sim_c06.py); unrepaired kopf never sends one"]
 
-OWN = "kopf.zalando.org/KopfFinalizerMarker"
+DEFAULT_OWN = "kopf.zalando.org/KopfFinalizerMarker"
+OWN = DEFAULT_OWN      # the operator's own finalizer in the scenario under evaluation: settings.persistence.finalizer (see `_use`)
+CUSTOM_OWNS = ["ops.example.com/kopf-marker", "fin"]
+
+
+def _use(sc: dict | None) -> str:
+    """Evaluate what follows for this scenario's own finalizer name (kopf's default unless the scenario configures one)."""
+    global OWN
+    OWN = ((sc or {}).get("settings") or {}).get("persistence.finalizer") or DEFAULT_OWN
+    return OWN
+
+
 LAT = 1.0 / 64
 CHANGING_KINDS = ("create", "update", "delete", "resume", "field")
 SPAWNING_KINDS = ("daemon", "timer")
@@ -104,6 +129,9 @@ SIG_F8 = {"site": "application.apply",
           "shape": "never released: delays with a non-empty patch that sends no request (only transformation fns without operations): taken for a change, the sleep-then-touch is skipped and no event follows"}
 SIG_F9 = {"site": "process_resource_causes+apply",
           "shape": "never released: cycle entered with a carried handler-supplied fn that has nothing to change: state-dependent part skipped, nothing sent, no further event"}
+SIG_F10 = {"site": "throttlers.throttled+queueing.worker",
+           "shape": "never released: the cycle failed on an API error that outlasted the request retries; the error is swallowed, the "
+                    "throttling pause ends without re-processing and no event follows"}
 SIG_EARLY = {"site": "processing.process_resource_causes", "shape": "own finalizer removed while a finalizer is required"}
 
 
@@ -330,6 +358,7 @@ def spec_allow(f: str, l: list[str]) -> list[str]:
 
 def run_lists(ctx: Ctx) -> None:
     from kopf._cogs.structs import bodies, finalizers, patches
+    _use(None)
     reqs, impls, inputs = [], [], []
     n = ctx.budget(1500, 40000)
     for k in range(n):
@@ -341,6 +370,13 @@ def run_lists(ctx: Ctx) -> None:
             body = {"metadata": {"name": "a"}, "spec": {}}
         elif shape == "no-meta":
             body = {"spec": {}}
+        # the functions get the whole body: what else it holds (a deletion mark, labels) must not matter
+        marked = "metadata" in body and ctx.rng.random() < 0.35
+        if marked:
+            body["metadata"]["deletionTimestamp"] = "2020-01-01T00:00:00Z"
+            if ctx.rng.random() < 0.5:
+                body["metadata"]["labels"] = {"l": "1"}
+        ctx.count("D.marked", marked)
         fns = [ctx.rng.choice(["block_deletion", "allow_deletion"]) for _ in range(ctx.rng.choice([1, 1, 1, 2, 3, 4, 0]))]
         mode = ctx.rng.choice(["direct", "direct", "jsonpatch"])
         ctx.count("D.list_len", len(l))
@@ -377,7 +413,14 @@ def run_lists(ctx: Ctx) -> None:
             if {k2: v for k2, v in after.items() if k2 != "metadata"} != {k2: v for k2, v in body.items() if k2 != "metadata"}:
                 ctx.oracle_fail("the finalizer fns changed something outside metadata", {"body": body, "ops": ops},
                                 {"site": "Patch.as_json_patch", "shape": "foreign fields touched"})
-        key = {"l": [("own" if x == f else "o") for x in l], "fns": fns, "mode": mode, "shape": shape}
+        # nothing else of the metadata is touched either (the deletion mark, the labels, the name)
+        after_b = b if mode == "direct" else after
+        rest = lambda x: {k2: v for k2, v in ((x.get("metadata") or {}).items()) if k2 != "finalizers"}   # noqa: E731
+        if rest(after_b) != rest(body):
+            ctx.oracle_fail("the finalizer fns changed metadata other than the finalizer list",
+                            {"body": body, "finalizer": f, "fns": fns, "mode": mode, "after": after_b},
+                            {"site": "finalizers." + (fns[-1] if fns else "none"), "shape": "other metadata touched"})
+        key = {"l": [("own" if x == f else "o") for x in l], "fns": fns, "mode": mode, "shape": shape, "marked": marked}
         ctx.case(key=key, nontrivial=got != l, sample={"finalizer": f, "list": l, "fns": fns, "mode": mode, "impl": got} if k < 2 else None)
         # oracle, from the statement: foreign ones exactly as before, in order; own present/absent as the last fn says
         if [x for x in got if x != f] != [x for x in l if x != f]:
@@ -408,6 +451,163 @@ def run_lists(ctx: Ctx) -> None:
 
 
 # =============================================================================================
+# (D2) who requires the finalizer: the real registries' `requires_finalizer`
+# =============================================================================================
+REG_KINDS = ["delete", "delete", "delete", "delete-optional", "create", "update", "resume", "daemon", "daemon", "timer", "event"]
+REG_LABELS = [None, None, {"l": "1"}, {"m": "1"}, {"l": "1", "m": "1"}, {"l": "0"}]
+REG_ANNOTATIONS = [None, None, None, {"a": "1"}]
+
+
+def _filters_match(reg: dict, labels: dict, annotations: dict) -> bool:
+    """From the statement: a handler 'matches' the object when all its label and annotation filters hold."""
+    return all(labels.get(k) == v for k, v in (reg["labels"] or {}).items()) and \
+        all(annotations.get(k) == v for k, v in (reg["annotations"] or {}).items())
+
+
+def _ask_registry(inp: dict) -> bool:
+    """Re-build the registry of a recorded D2 case with kopf's decorators and ask it again."""
+    import logging
+
+    import kopf
+    from kopf._cogs.structs import bodies, patches, references
+    from kopf._core.engines import indexing
+    from kopf._core.intents import causes, registries
+    registry = registries.OperatorRegistry()
+    fns: dict[int, Any] = {}
+    for d in inp["registrations"]:
+        if d["fn"] not in fns:
+            async def fn(**_: Any) -> None:
+                return None
+            fn.__name__ = fn.__qualname__ = f"fn{d['fn']}"
+            fns[d["fn"]] = fn
+        kw: dict[str, Any] = {"registry": registry}
+        for f in ("labels", "annotations"):
+            if d.get(f):
+                kw[f] = dict(d[f])
+        if d.get("explicit_id"):
+            kw["id"] = d["explicit_id"]
+        if d["kind"] == "delete-optional":
+            kw["optional"] = True
+        if d["kind"] == "timer":
+            kw["interval"] = 1.0
+        deco = kopf.daemon if d["kind"] == "daemon" else kopf.timer if d["kind"] == "timer" else getattr(kopf.on, d["kind"].split("-")[0])
+        deco("kopf.dev", "v1", d["resource"], **kw)(fns[d["fn"]])
+    meta: dict[str, Any] = {"name": "a", "namespace": "ns", "uid": "u1", "labels": inp["labels"], "annotations": inp["annotations"]}
+    if inp.get("marked"):
+        meta["deletionTimestamp"] = "2020-01-01T00:00:00Z"
+    common = dict(resource=references.Resource("kopf.dev", "v1", "kopfexamples", namespaced=True),
+                  indices=indexing.OperatorIndexers().indices, logger=logging.getLogger("verif.c06"), patch=patches.Patch(),
+                  body=bodies.Body({"metadata": meta, "spec": {"x": 0}}), memo=None)
+    if inp["registry"] == "changing":
+        return bool(registry._changing.requires_finalizer(cause=causes.ChangingCause(**common, initial=False, reason=causes.Reason(inp["reason"]))))
+    return bool(registry._spawning.requires_finalizer(cause=causes.SpawningCause(**common, reset=False), excluded=frozenset(inp["excluded"])))
+
+
+def run_registry(ctx: Ctx) -> None:
+    """Registries built with kopf's own decorators — several registrations per function (stacked decorators: one id,
+    different filters), optional and mandatory deletion handlers, handlers of other kinds and of another resource —
+    asked `requires_finalizer` for generated objects and exclusion sets; vs. the loop model and vs. the statement."""
+    import logging
+
+    import kopf
+    from kopf._cogs.structs import bodies, patches, references
+    from kopf._core.engines import indexing
+    from kopf._core.intents import causes, registries
+    resource = references.Resource("kopf.dev", "v1", "kopfexamples", namespaced=True)
+    logger = logging.getLogger("verif.c06")
+    indexers = indexing.OperatorIndexers()
+    reqs, impls, inputs = [], [], []
+    n = ctx.budget(400, 6000)
+    for k in range(n):
+        rng = ctx.rng
+        nfn = rng.choice([1, 2, 2, 3])
+        fns = []
+        for i in range(nfn):
+            async def fn(**_: Any) -> None:
+                return None
+            fn.__name__ = fn.__qualname__ = f"fn{i}"
+            fns.append(fn)
+        decls = []
+        registry = registries.OperatorRegistry()
+        for _ in range(rng.choice([0, 1, 2, 2, 3, 4, 5])):
+            kind = rng.choice(REG_KINDS)
+            d = {"fn": rng.randrange(nfn), "kind": kind, "labels": rng.choice(REG_LABELS), "annotations": rng.choice(REG_ANNOTATIONS),
+                 "resource": "kopfexamples" if rng.random() < 0.9 else "otherthings",
+                 "explicit_id": rng.choice([None, None, None, "x"])}
+            kw: dict[str, Any] = {"registry": registry}
+            if d["labels"]:
+                kw["labels"] = dict(d["labels"])
+            if d["annotations"]:
+                kw["annotations"] = dict(d["annotations"])
+            if d["explicit_id"]:
+                kw["id"] = d["explicit_id"]
+            if kind == "delete-optional":
+                kw["optional"] = True
+            if kind == "timer":
+                kw["interval"] = 1.0
+            deco = kopf.daemon if kind == "daemon" else kopf.timer if kind == "timer" else getattr(kopf.on, kind.split("-")[0])
+            deco("kopf.dev", "v1", d["resource"], **kw)(fns[d["fn"]])
+            d["id"] = d["explicit_id"] or f"fn{d['fn']}"
+            decls.append(d)
+        labels = {kk: vv for kk, vv in (("l", rng.choice([None, "0", "1", "1"])), ("m", rng.choice([None, "0", "1"]))) if vv is not None}
+        annotations = {"a": "1"} if rng.random() < 0.5 else {}
+        marked = rng.random() < 0.3
+        meta: dict[str, Any] = {"name": "a", "namespace": "ns", "uid": "u1", "labels": labels, "annotations": annotations}
+        if marked:
+            meta["deletionTimestamp"] = "2020-01-01T00:00:00Z"
+        if rng.random() < 0.5:
+            meta["finalizers"] = [DEFAULT_OWN]
+        body = bodies.Body({"metadata": meta, "spec": {"x": 0}})
+        ids = sorted({d["id"] for d in decls})
+        excluded = sorted(rng.sample(ids, rng.randrange(0, len(ids) + 1))) if ids and rng.random() < 0.5 else []
+        reason = rng.choice(["create", "update", "delete", "resume", "noop", "free"])
+        common = dict(resource=resource, indices=indexers.indices, logger=logger, patch=patches.Patch(), body=body, memo=None)
+        ccause = causes.ChangingCause(**common, initial=rng.random() < 0.3, reason=causes.Reason(reason))
+        scause = causes.SpawningCause(**common, reset=False)
+        for which in ("changing", "spawning"):
+            mine = [d for d in decls if (d["kind"] in ("daemon", "timer")) == (which == "spawning") and d["kind"] != "event"]
+            ex = excluded if which == "spawning" else []
+            if which == "changing":
+                got = bool(registry._changing.requires_finalizer(cause=ccause))
+            else:
+                got = bool(registry._spawning.requires_finalizer(cause=scause, excluded=frozenset(ex)))
+            # the statement: a matching mandatory deletion handler, resp. a matching daemon/timer that may still run
+            hits = [d for d in mine if d["resource"] == "kopfexamples" and _filters_match(d, labels, annotations)
+                    and d["kind"] in ("delete", "daemon", "timer") and d["id"] not in ex]
+            want = bool(hits)
+            stacked = len({d["id"] for d in mine}) < len(mine)
+            first_of_id: dict[str, dict] = {}
+            for d in mine:
+                first_of_id.setdefault(d["id"], d)
+            later_only = want and not any(first_of_id[d["id"]] is d for d in hits)
+            ctx.count("D2.registry", which)
+            ctx.count("D2.required", want)
+            ctx.count("D2.shape", "only a later registration of a stacked id matches" if later_only else
+                      "stacked" if stacked else "plain")
+            key = {"w": which, "regs": [[d["kind"], d["id"], d["resource"] == "kopfexamples", _filters_match(d, labels, annotations)] for d in mine],
+                   "ex": ex}
+            ctx.case(key=key, nontrivial=want or stacked or bool(ex), sample=None)
+            inp = {"registry": which, "registrations": [{kk: vv for kk, vv in d.items()} for d in mine], "labels": labels,
+                   "annotations": annotations, "marked": marked, "excluded": ex, "reason": reason}
+            if got != want:
+                ctx.oracle_fail(f"{which} registry: requires_finalizer = {got}, but " +
+                                (f"registration(s) {[(d['kind'], d['id'], d['labels'], d['annotations']) for d in hits]} require the finalizer "
+                                 f"and match the object" if want else "no finalizer-requiring registration matches the object"),
+                                inp, {"site": f"registries.{'Changing' if which == 'changing' else 'Spawning'}Registry.requires_finalizer",
+                                      "shape": "required but not reported" if want else "reported but not required"})
+            reqs.append(["C06.requires", ex, [[d["id"], d["kind"] in ("delete", "daemon", "timer"),
+                                               d["resource"] == "kopfexamples" and _filters_match(d, labels, annotations)] for d in mine]])
+            impls.append(got)
+            inputs.append(inp)
+    try:
+        outs = ctx.driver.ask(reqs)
+    except leanio.LeanError as e:
+        raise RuntimeError(f"Lean driver failed (toolchain/harness problem, not a verdict): {e}\n{e.log[-1500:]}")
+    for inp, impl, out in zip(inputs, impls, outs):
+        ctx.compare("C06 requires_finalizer of the registries", impl, out[1] if out and out[0] == "ok" else out, inp)
+
+
+# =============================================================================================
 # (S) scenarios
 # =============================================================================================
 def gen_scenario(rng: Any, seed: int) -> dict:
@@ -426,8 +626,15 @@ def gen_scenario(rng: Any, seed: int) -> dict:
         script = []
         for _ in range(rng.choice([0, 0, 1, 1, 2, 3])):
             a = rng.choice(["ok", "temp", "temp", "perm", "arb"])
-            script.append(["temp", rng.choice([0.5, 1.0, 2.0, 3.0])] if a == "temp" else a)
+            a = ["temp", rng.choice([0.5, 1.0, 2.0, 3.0])] if a == "temp" else a
+            if rng.random() < 0.12:
+                a = ["sleep", rng.choice([0.5, 1.5, 3.0]), a]     # a handler that takes its time: things happen meanwhile
+            script.append(a)
         hd: dict[str, Any] = {"kind": "delete", "id": f"d{k}", "opts": opts, "script": script, "default": rng.choice(["ok", "ok", "ok", "perm"])}
+        if hd["default"] == "ok" and rng.random() < 0.15:
+            hd["default"] = ["ok", {"r": k}]      # a result: goes to status.<id> in the very patch that releases the object
+        if rng.random() < 0.08:
+            hd["default"] = ["sleep", rng.choice([1.0, 2.5]), hd["default"]]
         if rng.random() < 0.15:
             # one function stacked twice under one id with different filters (both registrations decide the finalizer)
             common = {kk: vv for kk, vv in opts.items() if kk not in ("labels", "optional")}
@@ -440,20 +647,37 @@ def gen_scenario(rng: Any, seed: int) -> dict:
         opts = {}
         if rng.random() < 0.5:
             opts["labels"] = {rng.choice(["l", "m"]): "1"}
-        mode = rng.choice(["obey", "obey", "cancel", "ignore", "exit"])
-        if mode in ("cancel", "ignore"):
-            opts["cancellation_timeout"] = rng.choice([1.0, 2.0])
+        mode = rng.choice(["obey", "obey", "cancel", "ignore", "exit", "linger"])
+        if mode in ("cancel", "ignore") or (mode == "linger" and rng.random() < 0.4):
+            opts["cancellation_timeout"] = rng.choice([1.0, 2.0, 0]) if mode != "cancel" else rng.choice([1.0, 2.0])
             if rng.random() < 0.5:
                 opts["cancellation_backoff"] = rng.choice([0.5, 1.0])
+        elif mode == "linger" and rng.random() < 0.3:
+            opts["cancellation_backoff"] = rng.choice([0.5, 1.0])      # a grace period, but no forced cancellation after it
         if rng.random() < 0.5:
             opts["cancellation_polling"] = rng.choice([0.5, 1.0])
-        handlers.append({"kind": "daemon", "id": "dm", "opts": opts,
-                         "daemon": {"mode": mode, "after": rng.choice([0.5, 2.0, 6.0]), "poll": 0.5, "max_ignored": rng.choice([0, 1, 5])}})
+        if mode in ("exit", "linger") and "cancellation_timeout" not in opts and rng.random() < 0.12:
+            opts["cancellation_polling"] = 704.0    # beyond application.WAITING_KEEPALIVE_INTERVAL: the sleep is capped, then a touch
+        hd = {"kind": "daemon", "id": "dm", "opts": opts,
+              "daemon": {"mode": mode, "after": rng.choice([0.5, 2.0, 6.0]), "poll": 0.5, "max_ignored": rng.choice([0, 1, 5])}}
+        if rng.random() < 0.15:
+            # one daemon function stacked twice under one id with different filters
+            common = {kk: vv for kk, vv in opts.items() if kk != "labels"}
+            first, second = rng.sample(["l", "m"], 2)
+            hd["stack"] = [{**common, "labels": {first: "1"}}, {**common, "labels": {second: "1"}}]
+        handlers.append(hd)
     if rng.random() < 0.2:
         opts = {"interval": rng.choice([1.0, 3.0])}
         if rng.random() < 0.5:
             opts["labels"] = {rng.choice(["l", "m"]): "1"}
-        handlers.append({"kind": "timer", "id": "tm", "opts": opts, "script": [], "default": "ok"})
+        hd = {"kind": "timer", "id": "tm", "opts": opts, "script": [], "default": "ok"}
+        if rng.random() < 0.4:
+            hd["default"] = ["sleep", rng.choice([0.5, 2.0, 4.0]), "ok"]     # an invocation can be under way when the object is deleted
+        if rng.random() < 0.15:
+            common = {kk: vv for kk, vv in opts.items() if kk != "labels"}
+            first, second = rng.sample(["l", "m"], 2)
+            hd["stack"] = [{**common, "labels": {first: "1"}}, {**common, "labels": {second: "1"}}]
+        handlers.append(hd)
     if rng.random() < 0.4 or not handlers:
         kind = rng.choice(["create", "update", "resume"])
         handlers.append({"kind": kind, "id": kind[0] + "x", "opts": {}, "script": [rng.choice(["ok", ["temp", 1.0], "perm"])], "default": "ok"})
@@ -465,6 +689,11 @@ def gen_scenario(rng: Any, seed: int) -> dict:
     labels = {"l": rng.choice(["0", "1", "1"]), "m": rng.choice(["0", "1"])}
     body: dict[str, Any] = {"spec": {"x": 0}, "metadata": {"labels": dict(labels)}}
     foreign_pool = ["other.io/a", "other.io/b", "x"]
+    settings: dict[str, Any] = {"execution.default_backoff": rng.choice([1.0, 2.0]), "background.cancellation_polling": rng.choice([0.5, 1.0, 2.0])}
+    if rng.random() < 0.2:
+        # a configured finalizer name; kopf's default name is then just somebody else's finalizer
+        settings["persistence.finalizer"] = rng.choice(CUSTOM_OWNS)
+        foreign_pool = ["other.io/a", DEFAULT_OWN, "x"]
     if rng.random() < 0.3:
         body["metadata"]["finalizers"] = rng.sample(foreign_pool, rng.choice([1, 2]))
     t = 1.0
@@ -497,8 +726,9 @@ def gen_scenario(rng: Any, seed: int) -> dict:
     if deleted and foreign_last and rng.random() < 0.8:
         t += rng.choice([1.0, 4.0, 9.0])
         timeline.append([t, "fins", "a", []])
-    sc: dict[str, Any] = {"seed": seed, "handlers": handlers, "timeline": timeline,
-                          "settings": {"execution.default_backoff": rng.choice([1.0, 2.0]), "background.cancellation_polling": rng.choice([0.5, 1.0, 2.0])}}
+    sc: dict[str, Any] = {"seed": seed, "handlers": handlers, "timeline": timeline, "settings": settings}
+    if rng.random() < 0.15:
+        sc["status_subresource"] = True     # the status part of a patch is a request of its own, before the JSON patch
     if rng.random() < 0.35:
         op = foreign_op() if rng.random() < 0.85 else ["delete", "a"]
         slip: dict[str, Any] = {"nth": rng.randrange(1, 9), "op": op}
@@ -509,11 +739,17 @@ def gen_scenario(rng: Any, seed: int) -> dict:
     if rng.random() < 0.15:
         sc["faults"] = [{"match": {"method": "PATCH", "ctype": "json-patch", "nth": rng.randrange(1, 5), "path_contains": "kopfexamples/"},
                          "fault": ["status", 422]}]
+    elif rng.random() < 0.07:
+        # an API outage: the next 1-5 PATCH attempts after some moment are answered 5xx (api.request retries 3 times)
+        sc["faults"] = [{"match": {"method": "PATCH", "after": rng.randrange(64, int((t + 2.0) * 64)) / 64.0, "path_contains": "kopfexamples/"},
+                         "fault": ["status", rng.choice([500, 503])], "times": rng.choice([1, 2, 3, 4, 5])}]
     end = t + 40.0
     for _ in range(rng.choice([0, 0, 0, 1, 1, 2])):
         ts = rng.randrange(32, int((t + 6.0) * 64)) / 64.0
         timeline.append([ts, rng.choice(["stop", "kill"])])
         timeline.append([ts + rng.choice([0.5, 2.0, 5.0]), "start"])
+    if any((h.get("opts") or {}).get("cancellation_polling", 0) > 600 for h in handlers) and not any(h["kind"] == "timer" for h in handlers):
+        end = t + 1500.0      # long enough for a capped sleep (600 s), the touch after it and the release
     sc["end"] = end
     return sc
 
@@ -582,11 +818,27 @@ class View:
             if m["what"] in ("stopped", "killed"):
                 self.ends[m["inc"]] = m["t"]
 
-    def writer(self, v: dict) -> dict | None:
+    def writer(self, v: dict, prev: dict | None = None) -> dict | None:
+        """The operator request that stored this version, if any. A request that changed nothing is answered with the
+        current object — possibly a version somebody else stored at the same instant: given the previous version, a
+        request counts as the writer only if its payload explains what happened to the finalizers, labels and mark."""
         m = _meta(v["body"])
         if v["event"] == "DELETED":
             return self.op_deletes.get((m.get("uid"), v["t"]))
-        return self.op_writes.get((m.get("resourceVersion"), v["t"]))
+        r = self.op_writes.get((m.get("resourceVersion"), v["t"]))
+        if r is not None and prev is not None and prev["event"] != "DELETED":
+            try:
+                pl = r.get("payload")
+                if isinstance(pl, list):
+                    after = rfc.apply_json_patch(copy.deepcopy(prev["body"]), [o for o in pl if not (isinstance(o, dict) and o.get("op") == "test")])
+                else:
+                    after = rfc.merge_patch(copy.deepcopy(prev["body"]), pl or {})
+            except Exception:  # noqa: BLE001
+                return None
+            if (_fins(after), _labels(after), bool(_meta(after).get("deletionTimestamp"))) != \
+                    (_fins(v["body"]), _labels(v["body"]), bool(m.get("deletionTimestamp"))):
+                return None
+        return r
 
     def versions(self, uid: str) -> list[dict]:
         return [v for v in self.hist if _meta(v["body"]).get("uid") == uid]
@@ -665,20 +917,38 @@ class View:
 def _cycle_requests(view: View, cyc: dict) -> list[dict]:
     who = f"op#{cyc['inc']}"
     t1 = cyc.get("t1", float("inf"))
-    return [r for r in view.reqs if r["who"] == who and cyc["t0"] <= r["wall"] < t1 and r["path"].endswith("/" + (cyc.get("name") or "a"))]
+    name = cyc.get("name") or "a"
+    return [r for r in view.reqs if r["who"] == who and cyc["t0"] <= r["wall"] < t1
+            and (r["path"].endswith("/" + name) or r["path"].endswith("/" + name + "/status"))]
 
 
 def _main_requests(view: View, cyc: dict) -> tuple[dict | None, dict | None]:
     """(merge-patch request, JSON-patch request) of the cycle's main `patch_obj` call: the merge patch (if the patch
     has dict content) leaves at the instant `apply` is entered, the JSON patch right after its response."""
+    merges, js = _main_chain(view, cyc)
+    return (merges[-1] if merges else None), js
+
+
+def _main_chain(view: View, cyc: dict) -> tuple[list[dict], dict | None]:
+    """The requests of the cycle's main `patch_obj` call, one per latency step from the instant `apply` is entered:
+    the merge patch of the body, the merge patch of the status (only with a status subresource, where the `status`
+    part goes there) — the response of the LAST of them is the `fresh_body` —, then the JSON patch of the body."""
     ap = cyc.get("apply")
     if not ap:
-        return None, None
+        return [], None
     rs = _cycle_requests(view, cyc)
-    merge = next((r for r in rs if "merge-patch" in (r.get("ctype") or "") and r["wall"] == ap["t"]), None)
-    jt = ap["t"] + (LAT if merge is not None else 0.0)
-    js = next((r for r in rs if "json-patch" in (r.get("ctype") or "") and r["wall"] == jt), None)
-    return merge, js
+    merges: list[dict] = []
+    t = ap["t"]
+    for sub in (False, True):
+        r = next((r for r in rs if "merge-patch" in (r.get("ctype") or "") and r["wall"] == t
+                  and r["path"].endswith("/status") == sub), None)
+        if r is not None:
+            merges.append(r)
+            t += LAT
+            if r.get("response") != 200:
+                return merges, None
+    js = next((r for r in rs if "json-patch" in (r.get("ctype") or "") and r["wall"] == t and not r["path"].endswith("/status")), None)
+    return merges, js
 
 
 def _touch_only(req: dict) -> bool:
@@ -721,7 +991,7 @@ def _slept(view: View, cyc: dict, ab: dict) -> bool | None:
         return None
     if any(e[1] in ("stop", "kill") and ap["t"] - 1e-9 <= e[0] <= cyc.get("t1", float("inf")) + 1e-9 for e in view.sc.get("timeline", [])):
         return None   # the operator was being stopped while the cycle slept
-    n_main = (1 if ab["merge"] is not None else 0) + (1 if ab["json"] is not None else 0)
+    n_main = len(_main_chain(view, cyc)[0]) + (1 if ab["json"] is not None else 0)
     rs = [r for r in _cycle_requests(view, cyc) if r["wall"] >= ap["t"] + n_main * LAT and "merge-patch" in (r.get("ctype") or "")]
     touched = any(_touch_only(r) for r in rs)
     extra = (ap["t_end"] - ap["t"]) - n_main * LAT
@@ -876,6 +1146,12 @@ def trace_items(view: View) -> tuple[dict, list, dict] | None:
         if "remaining_fns" not in ap:
             note.setdefault("cut_cycles", 0)
             note["cut_cycles"] += 1     # killed inside apply: what was sent is replayed below, a restart follows
+            if view.ends.get(cyc["inc"], float("inf")) > cyc.get("t1", float("inf")):
+                # … or the process lived on: `apply` raised (an API error past the request retries, swallowed by
+                # `throttled()`): the LTS has no label for a cycle that dies in its patching (finding F10)
+                note["truncated"] = note["truncated"] or "a cycle failed in its patching (API error)"
+                items.append((t, 1, seq + 3, None, None, "stop"))
+                continue
         tj = t
         merge_idx = None
         if merge is not None:
@@ -919,7 +1195,7 @@ def trace_items(view: View) -> tuple[dict, list, dict] | None:
     # ---- stored versions, in order
     for i in range(1, len(vs)):
         prev, cur = vs[i - 1], vs[i]
-        w = view.writer(cur)
+        w = view.writer(cur, prev)
         exp = server(i)
         if w is not None:
             lab = req_label.get(id(w))
@@ -986,6 +1262,7 @@ def trace_items(view: View) -> tuple[dict, list, dict] | None:
 def oracle(ctx: Ctx, sc: dict, tr: dict) -> dict:
     """Written from the property statement over the server-side history, the request log and the
     handler/daemon log; never consults the Lean model. Returns a few counters."""
+    _use(sc)
     view = View(sc, tr)
     stats = {"removals": 0, "early": 0, "adds": 0}
     cycles_by_req: dict[int, dict] = {}
@@ -995,7 +1272,7 @@ def oracle(ctx: Ctx, sc: dict, tr: dict) -> dict:
     for uid in view.uids():
         vs = view.versions(uid)
         for prev, cur in zip(vs, vs[1:]):
-            w = view.writer(cur)
+            w = view.writer(cur, prev)
             pf, cf = _fins(prev["body"]), _fins(cur["body"])
             gone = cur["event"] == "DELETED"
             # (4) foreign finalizers: an operator write never adds, drops or reorders them
@@ -1003,6 +1280,13 @@ def oracle(ctx: Ctx, sc: dict, tr: dict) -> dict:
                 ctx.oracle_fail(f"an operator write changed the foreign finalizers: {pf} -> {cf}",
                                 {"scenario": sc, "rv": _meta(cur['body']).get("resourceVersion"), "request": w.get("payload")},
                                 {"site": "patching.patch_obj", "shape": "foreign finalizers changed by the operator"})
+            # … nor takes them all off at once: an object goes away only when its finalizer list is empty, so an
+            # operator write that makes the object disappear while others' finalizers were on it dropped them
+            if w is not None and gone and [x for x in pf if x != OWN]:
+                ctx.oracle_fail(f"an operator write removed the foreign finalizers {[x for x in pf if x != OWN]} together with its own: "
+                                f"the object is gone although their owners never released it",
+                                {"scenario": sc, "t": cur["t"], "finalizers_before": pf, "request": w.get("payload")},
+                                {"site": "patching.patch_obj", "shape": "foreign finalizers dropped by the releasing write"})
             if w is not None and not gone and OWN in cf and cf.count(OWN) > max(1, pf.count(OWN)):
                 ctx.oracle_fail("the operator duplicated its own finalizer", {"scenario": sc, "request": w.get("payload")},
                                 {"site": "finalizers.block_deletion", "shape": "own finalizer duplicated"})
@@ -1129,6 +1413,10 @@ def _classify_stuck(view: View, cycles: list[dict]) -> dict:
     noop = merge is not None and isinstance(merge.get("result"), dict) and \
         _meta(merge["result"]).get("resourceVersion") == last.get("rv") and js is None
     carried = (((last or {}).get("mem_before") or {}).get("remaining_patch") or {}).get("fns") or 0
+    if last is not None and ap and "remaining_fns" not in ap:
+        failed = [r for r in _cycle_requests(view, last) if r.get("fault") and r.get("response") not in (200, 422)]
+        if failed:
+            return SIG_F10     # `apply` never returned: the last cycle died in its patching, inside `throttled()`
     if carried and not ap.get("patch") and merge is None and js is None and not last.get("pcc") and \
             len(ap.get("fns") or []) != len(_own_fns(ap.get("fns") or [])):
         return SIG_F9
@@ -1143,8 +1431,9 @@ def _classify_stuck(view: View, cycles: list[dict]) -> dict:
 
 def check_liveness(ctx: Ctx, view: View, sc: dict, tr: dict) -> None:
     end = float(sc.get("end", 60.0))
-    if any(r.get("fault") for r in tr["requests"]):
+    if any(r.get("fault") and r.get("response") == 422 for r in tr["requests"]):
         return     # an injected 422 without a real concurrent write produces no follow-up event
+    # (other injected answers — an API outage: HTTP 5xx on some requests — are no excuse: they end, the object is still there)
     starts = [m for m in tr["marks"] if m["what"] == "start"]
     if not starts:
         return
@@ -1196,6 +1485,8 @@ def run_scenarios(ctx: Ctx, scenarios: list[dict], names: list[str | None]) -> N
             raise RuntimeError(f"simulation error: {tr['sim_error']} in {json.dumps(sc)[:1500]}")
         ctx.traces += 1
         before = len(ctx.failures)
+        _use(sc)
+        ctx.count("S.own_finalizer", "default" if OWN == DEFAULT_OWN else "configured")
         stats = oracle(ctx, sc, tr)
         ctx.count("S.removals_by_operator", "early" if stats["early"] else ("some" if stats["removals"] else "none"))
         if name is not None and name.startswith("F5") and len(ctx.failures) == before:
@@ -1241,6 +1532,17 @@ def run_scenarios(ctx: Ctx, scenarios: list[dict], names: list[str | None]) -> N
             ctx.count("S.carried", ab["carried"])
             ctx.count("S.json_patch", outcome)
             ctx.count("S.merge_first", ab["merge"] is not None and js is not None)
+            if js is not None:
+                # the model's JSON-patch step is accepted iff the version is the one of `fresh_body` (the last merge response,
+                # else the body the cycle was given): the request must carry exactly that test, first
+                mg = ab["merge"]
+                base = mg["result"] if mg is not None and mg.get("response") == 200 and isinstance(mg.get("result"), dict) else cyc["body"]
+                pl = js.get("payload") if isinstance(js.get("payload"), list) else []
+                t0 = pl[0] if pl and isinstance(pl[0], dict) else {}
+                if not (t0.get("op") == "test" and t0.get("path") == "/metadata/resourceVersion"
+                        and t0.get("value") == _meta(base).get("resourceVersion")):
+                    ctx.tie_fail("the JSON patch is not guarded by a test of the version its operations were computed against",
+                                 {"scenario": sc, "cycle": cyc["i"], "json_patch": pl, "fresh_version": _meta(base).get("resourceVersion")})
             reqs.append(["C06.decide", i])
             impls.append({"fns": ab["new"], "handlersRun": ab["ran"], "delays": bool(cyc["apply"].get("delays"))})
             where.append({"scenario": sc, "cycle": cyc["i"], "what": "decision"})
@@ -1287,6 +1589,7 @@ def run_scenarios(ctx: Ctx, scenarios: list[dict], names: list[str | None]) -> N
 
 def run(ctx: Ctx) -> None:
     run_lists(ctx)
+    run_registry(ctx)
     n = ctx.budget(200, 10000)
     corpus = _corpus()
     scenarios = [sc for _, sc in corpus] + [gen_scenario(ctx.rng, ctx.seed * 1_000_000 + i) for i in range(n)]
@@ -1295,6 +1598,7 @@ def run(ctx: Ctx) -> None:
         for h in sc.get("handlers", []):
             ctx.count("S.handler_kinds", h["kind"] + ("(optional)" if (h.get("opts") or {}).get("optional") else "")
                       + ("(stacked)" if "stack" in h else ""))
+        ctx.count("S.status_subresource", bool(sc.get("status_subresource")))
         ctx.count("S.slips", len(sc.get("slips", [])))
         ctx.count("S.faults", len(sc.get("faults", [])))
         ctx.count("S.restarts", sum(1 for e in sc["timeline"] if e[1] in ("stop", "kill")))
@@ -1305,21 +1609,46 @@ def run(ctx: Ctx) -> None:
 
 def search(ctx: Ctx, broken: list) -> None:
     """A proof/tie is broken: look for a concrete failing history/list with the oracle at a larger budget."""
+    start = len(ctx.failures)
+    known = (SIG_F5, SIG_F5B, SIG_F9, SIG_F10)     # open findings (and F5's history): not what is looked for
+
+    def found() -> bool:
+        return any(f.kind == "oracle" and f.signature not in known for f in ctx.failures[start:])
+
     run_lists(ctx)
-    if any(f.kind == "oracle" and f.signature not in (SIG_F5, SIG_F5B) for f in ctx.failures):
+    run_registry(ctx)
+    if found():
         return
     n = ctx.budget(1500, 8000)
     scenarios = [gen_scenario(ctx.rng, 7_000_000 + ctx.seed * 1_000_000 + i) for i in range(n)]
-    for b in broken[:10]:
-        sc = (b.replay or {}).get("input", {}).get("scenario") if isinstance(b.replay, dict) else None
-        if sc:
-            scenarios.insert(0, sc)
+    directed: list[dict] = []
+    seen_sc: set[str] = set()
+    for b in broken[:40]:
+        rep_ = b.replay if isinstance(b.replay, dict) else {}
+        sc = (rep_.get("input") or {}).get("scenario") or rep_.get("scenario")
+        if not sc or json.dumps(sc, sort_keys=True) in seen_sc or len(seen_sc) >= 8:
+            continue
+        seen_sc.add(json.dumps(sc, sort_keys=True))
+        directed.append(sc)
+        # the quantifier's "foreign write between any two requests": around the history that broke the correspondence,
+        # place one foreign write right before each of the operator's first PATCHes
+        ops = [["edit", "a", {"metadata": {"labels": {"l": "1"}}}], ["edit", "a", {"metadata": {"labels": {"l": "0"}}}],
+               ["edit", "a", {"metadata": {"labels": {"m": "1"}}}], ["edit", "a", {"metadata": {"labels": {"m": "0"}}}],
+               ["fins", "a", ["other.io/a", "x"]], ["fins", "a", ["other.io/b"], 0], ["fins", "a", []], ["delete", "a"]]
+        for nth in range(1, 9):
+            for op in ops:
+                for ctype in ("json-patch", None):
+                    v = copy.deepcopy(sc)
+                    v.pop("faults", None)
+                    v["slips"] = [{"nth": nth, "op": op, **({"ctype": ctype} if ctype else {})}]
+                    directed.append(v)
+    scenarios = directed + scenarios
     for k in range(0, len(scenarios), 400):
         chunk = scenarios[k:k + 400]
         for sc, res in zip(chunk, pool.run_many(chunk, wall=40.0)):
             if "trace" in res and not res["trace"].get("sim_error"):
                 oracle(ctx, sc, res["trace"])
-        if any(f.kind == "oracle" and f.signature not in (SIG_F5, SIG_F5B) for f in ctx.failures):
+        if found():
             return
 
 
@@ -1330,6 +1659,13 @@ def replay(ctx: Ctx, data: dict) -> None:
         res = pool.run_many([sc], wall=40.0)[0]
         if "trace" in res:
             oracle(ctx, sc, res["trace"])
+        return
+    if "registrations" in rep:
+        got = _ask_registry(rep)
+        hits = [d for d in rep["registrations"] if d["resource"] == "kopfexamples" and _filters_match(d, rep["labels"], rep["annotations"])
+                and d["kind"] in ("delete", "daemon", "timer") and d["id"] not in rep["excluded"]]
+        if got != bool(hits):
+            ctx.oracle_fail("requires_finalizer deviates from the statement (a matching finalizer-requiring registration)", rep, data.get("signature"))
         return
     if "finalizer" in rep and "list" in rep:
         from kopf._cogs.structs import finalizers
